@@ -623,6 +623,12 @@ MAPTY = r'(?:indexmap::(?:map::)?)?IndexMap|wasmparser::collections::IndexMap|wa
 def m_map_new(ctx):
     hashed = bool(re.match(r'^<?(?:std::collections::)?(?:hash_map::|hash_set::)?Hash(?:Map|Set)', ctx.callee))
     return ctx.ret(MapV((), hashed))
+@model(r'^(?:' + MAPTY + r'|(?:indexmap::)?IndexSet|(?:std::collections::)?HashSet)::<.*>::clear$')
+def m_map_clear(ctx):
+    r = ctx.args[0]; m = ctx.deref(r)
+    if not isinstance(m, MapV): raise EngineError(f'clear of {m!r}')
+    ctx.eng.write_ref(ctx.st, r, MapV((), m.hashed)); return ctx.ret(UNIT)
+
 class EntryV:
     """indexmap / std `Entry`: the map reference and the key; resolved by or_insert / or_default / or_insert_with"""
     __slots__ = ('r', 'key')
